@@ -54,6 +54,8 @@ pub fn parse_trace(text: &str) -> Trace {
                     Some(Abort::Horizon)
                 } else if l.contains("abort=Some(Diverged)") {
                     Some(Abort::Diverged)
+                } else if l.contains("abort=Some(Panicked)") {
+                    Some(Abort::Panicked)
                 } else {
                     None
                 };
